@@ -96,10 +96,10 @@ def shlor (v : UInt64) (w : Nat) : UInt64 := (v <<< w.toUInt64) ||| (v >>> (64 -
 /-- `state->table2[i]` -/
 def RhState.table2 (st : RhState) (i : UInt8) : UInt64 := shlor (table1 i) st.w
 
-/-- `_rolling_hash2_init`: returns -1 and leaves the state alone when `w > 48`; `w = 0` is accepted
-(candidate F15: the documentation asks for `w ≥ 1`). -/
+/-- `_rolling_hash2_init`: returns -1 and leaves the state alone when `w < 1` or `w > 48`
+(`w = 0` was accepted before `fix:` d0c27ce, finding F15). -/
 def init (st : RhState) (w : Nat) : Int × RhState :=
-  if w > ISAL_FINGERPRINT_MAX_WINDOW then (-1, st)
+  if w < 1 ∨ w > ISAL_FINGERPRINT_MAX_WINDOW then (-1, st)
   else (0, { st with w := w })
 
 /-- `isal_rolling_hash2_init` (non-FIPS build, non-NULL state) -/
